@@ -4,6 +4,7 @@
 -/
 import HugrVerif.Build
 import HugrVerif.Proofs.Store
+import HugrVerif.Proofs.StoreInv
 
 namespace HugrVerif.Build
 open HugrVerif HugrVerif.Store
@@ -260,5 +261,103 @@ theorem mapM_error_first {α β ε : Type} (f : α → Except ε β) (x : α) (e
     obtain ⟨b, hb⟩ := hpre a List.mem_cons_self
     have := ih (fun a' ha' => hpre a' (List.mem_cons_of_mem _ ha')) hx
     simp [List.mapM_cons, hb, this, Bind.bind, Except.bind]
+
+/-! ### growth of port counts leaves the hierarchy alone; completion of an operation leaves the links alone -/
+
+theorem grow_nodeParent (s s' : St) (G : StoreGrow s s') (i : Nat) : nodeParent s' i = nodeParent s i := by
+  unfold nodeParent
+  cases hg : Store.getNode s i with
+  | ok d =>
+    obtain ⟨d', e1, g⟩ := G.fwd i d hg
+    simp [e1, g.parent]
+  | error e =>
+    cases hg1 : Store.getNode s' i with
+    | ok d' =>
+      obtain ⟨d, hd⟩ := G.bwd i d' hg1
+      rw [hg] at hd; cases hd
+    | error e' =>
+      rw [getNode_error s i e hg, getNode_error s' i e' hg1]
+
+theorem grow_anc (s s' : St) (G : StoreGrow s s') (a b : Nat) (h : Anc s' a b) : Anc s a b := by
+  induction h with
+  | refl a => exact .refl a
+  | step a p b hp _ ih => exact .step a p b (by rw [← grow_nodeParent s s' G a]; exact hp) ih
+
+theorem modifyNode_links (s s' : St) (i : Nat) (f : NodeData Op Serial.Meta → NodeData Op Serial.Meta)
+    (h : Store.modifyNode s i f = .ok s') : s'.links = s.links := by
+  obtain ⟨d, _, e⟩ := modifyNode_ok s s' i f h
+  subst e; rfl
+
+theorem updateNodeOuts_links (s s' : St) (i k : Nat) (h : Store.updateNodeOuts s i k = .ok s') :
+    s'.links = s.links := by
+  unfold Store.updateNodeOuts at h
+  simp only [bind, Except.bind] at h
+  cases h1 : Store.modifyNode s i (fun d => { d with numOuts := k }) with
+  | error e => simp [h1] at h
+  | ok s1 =>
+    simp only [h1] at h
+    have e1 := modifyNode_links s s1 i _ h1
+    cases h2 : getNode s1 i with
+    | error e => simp [h2] at h
+    | ok d =>
+      simp only [h2] at h
+      cases hp : d.parent with
+      | none => simp [hp, pure, Except.pure] at h; subst h; exact e1
+      | some p =>
+        simp only [hp] at h
+        cases h3 : getNode s1 p with
+        | error e => simp [h3] at h
+        | ok pd =>
+          simp only [h3] at h
+          cases h4 : replaceFirst i (i, some k) pd.children with
+          | none => simp [h4] at h
+          | some cs =>
+            simp only [h4] at h
+            exact (modifyNode_links s1 s' p _ h).trans e1
+
+/-- completing the operation (`_set_in_types`, port counts) touches no link -/
+theorem completeOp_links (s s' : St) (node : Nat) (tys : List Ty) (h : completeOp s node tys = .ok s') :
+    linksList s' = linksList s := by
+  unfold completeOp at h
+  cases ho : nodeOp s node with
+  | error e => simp [ho] at h
+  | ok op =>
+    simp only [ho] at h
+    by_cases hp : isPartialOp op = true
+    · simp only [hp, if_true] at h
+      cases h1 : Op.setInTypes op tys with
+      | error e => simp [h1] at h
+      | ok op' =>
+        simp only [h1] at h
+        cases h2 : setOp s node op' with
+        | error e => simp [h2] at h
+        | ok s1 =>
+          simp only [h2] at h
+          cases h3 : Op.outerSig op' with
+          | error e => simp [h3] at h
+          | ok sig =>
+            simp only [h3] at h
+            have e1 : s1.links = s.links := by
+              unfold setOp at h2
+              cases hm : Store.modifyNode s node (fun d => { d with op := op' }) with
+              | error e => simp [hm, liftS] at h2
+              | ok sx =>
+                simp only [hm, liftS] at h2
+                injection h2 with h2; subst h2
+                exact modifyNode_links s sx node _ hm
+            unfold updatePortCount at h
+            cases hm : Store.modifyNode s1 node (fun d => { d with numInps := sig.inp.length }) with
+            | error e => simp [hm, liftS] at h
+            | ok s2 =>
+              simp only [hm, liftS] at h
+              cases hu : Store.updateNodeOuts s2 node sig.out.length with
+              | error e => simp [hu] at h
+              | ok s3 =>
+                simp only [hu] at h
+                injection h with h; subst h
+                apply linksList_congr
+                rw [updateNodeOuts_links s2 s3 node _ hu, modifyNode_links s1 s2 node _ hm, e1]
+    · simp only [hp] at h
+      injection h with h; subst h; rfl
 
 end HugrVerif.Build
